@@ -433,6 +433,7 @@ type State struct {
 	weak    bool                    // the path passed the head of a loop that has no invariant: states on it need not be reachable
 	preArgs map[*ast.CallExpr][]Val // arguments of deferred calls, evaluated at the defer statement (Go semantics)
 	inlineEntry *State              // state at the entry of the function being executed inline (old() of its loop invariants)
+	writeFields map[string][]string // generic heap component (map / array contents) -> names of the struct fields through which it was written
 	epoch   string                  // non-empty in the body of an anonymous goroutine: heap components first read there are fresh (nothing is known of them at that later, concurrent moment)
 }
 
@@ -462,6 +463,28 @@ func (s *State) wrote(comp, ref, guard string) {
 	}
 	l := s.writes[comp]
 	s.writes[comp] = append(l[:len(l):len(l)], w)
+}
+
+// wroteThrough notes that heap component comp was written through the struct field the written
+// map / slice had been read from (if it was).
+func (s *State) wroteThrough(comp string, v Val) {
+	if v.Org == nil {
+		return
+	}
+	sel, ok := v.Org.expr.(*ast.SelectorExpr)
+	if !ok {
+		return
+	}
+	if s.writeFields == nil {
+		s.writeFields = map[string][]string{}
+	}
+	for _, f := range s.writeFields[comp] {
+		if f == sel.Sel.Name {
+			return
+		}
+	}
+	l := s.writeFields[comp]
+	s.writeFields[comp] = append(l[:len(l):len(l)], sel.Sel.Name)
 }
 
 func (s *State) fork() *State {
@@ -509,6 +532,12 @@ func (s *State) fork() *State {
 		n.inlined = make(map[*ast.CallExpr][]Val, len(s.inlined))
 		for k, v := range s.inlined {
 			n.inlined[k] = v
+		}
+	}
+	if s.writeFields != nil {
+		n.writeFields = map[string][]string{}
+		for k, v := range s.writeFields {
+			n.writeFields[k] = v
 		}
 	}
 	if s.loopBinds != nil {
